@@ -528,7 +528,47 @@ def run_sqlite(ctx, pid, run, idx, replay, BUILD, ROOT):
     return res
 
 
-RUNNERS = {"sqlite": run_sqlite, "scan": run_scan, "parse": run_parse, "bind": run_bind, "iter": run_iter, "cache": run_cache, "tx": run_tx}
+DETERM_RULE = ("generated (query, samples, arguments A, arguments B of the same types in another shape): A run 5 times on one Statement, "
+               "B in between, a separately prepared Statement, 8 goroutines preparing the same query / running A and B on the shared "
+               "Statement at once; observable: generated SQL and named argument values (byte-identical) or the error class")
+
+
+def run_determ(ctx, pid, run, idx, replay, BUILD, ROOT):
+    out = os.path.join(ctx.rundir, "determ%d" % idx)
+    os.makedirs(out, exist_ok=True)
+    binary = os.path.join(BUILD, "harness")
+    race_note = "not built with -race in this tier"
+    if ctx.tier == "thorough":
+        # support only: the race detector watches the same runs
+        rc, log = sh(["go", "build", "-race", "-tags", "verif", "-o", os.path.join(BUILD, "harness-race"), "."],
+                     cwd=os.path.join(ROOT, "harness"), env=dict(os.environ, GOFLAGS="-mod=mod", GOPROXY="off", GOSUMDB="off", GOTOOLCHAIN="local", CGO_ENABLED="1"))
+        if rc == 0:
+            binary = os.path.join(BUILD, "harness-race")
+            race_note = "built with -race"
+    cmd = [binary, "determ", "-seed", str(ctx.seed + 1000 * idx), "-n", str(run["n"][ctx.tier]), "-out", out]
+    rc, log = sh(cmd, timeout=7200)
+    res = {"failing": [], "diffs": [], "coverage": {}}
+    if "WARNING: DATA RACE" in log:
+        res["failing"].append({"property": "C16", "oracle": "data-race-reported", "layer": "determ", "detail": log[log.index("WARNING: DATA RACE"):][:3000]})
+    if crashed(res, out, rc if "WARNING: DATA RACE" not in log else 0, log, pid):
+        return res
+    for l in open(os.path.join(out, "oracle.jsonl")):
+        v = json.loads(l)
+        if v["property"] in run.get("oracle_props", [pid]):
+            v["layer"] = "determ"
+            res["failing"].append(v)
+    st = json.load(open(os.path.join(out, "stats.json")))
+    res["coverage"] = {
+        "evaluations": st["runs"], "distinct_nontrivial": st["second_argument_shape_differs"],
+        "programs": st["cases"], "disagreements_checked": 0,
+        "rule": DETERM_RULE + " (" + race_note + "); non-trivial iff the two argument shapes give different output", "samples": st["samples"][:5],
+        "input_distribution": {k: st[k] for k in ("result_kinds", "concurrent_groups", "second_argument_shape_differs")},
+        "exhaustive": False,
+    }
+    return res
+
+
+RUNNERS = {"determ": run_determ, "sqlite": run_sqlite, "scan": run_scan, "parse": run_parse, "bind": run_bind, "iter": run_iter, "cache": run_cache, "tx": run_tx}
 
 
 def merge(a, b):
@@ -599,6 +639,15 @@ def tx_run_spec(oracle_props, compare=True, nq=400, nt=40000):
             "oracle_props": oracle_props, "compare": compare}
 
 
+def proj_bind_c18(line):
+    k = line.split(" ", 1)[0]
+    return line if k in ("PANIC", "HANG") or "OUT-OF-FUEL" in line else "RETURNED"
+
+
+def proj_iter_c18(case, line):
+    return line if "PANIC" in line or "HANG" in line else "RETURNED"
+
+
 def proj_scan_c18(line):
     return line if line.startswith(("PANIC", "HANG")) else "RETURNED"
 
@@ -608,6 +657,14 @@ PROPS = {
             "runs": [{"kind": "scan", "n": {"quick": 5000, "thorough": 200000}, "oracle_props": ["C06"]}]},
     "C17": {"uses_genconsts": True, "trusted_extra": ["SQLite 3 via github.com/mattn/go-sqlite3 v1.14.16 (cgo): the engine the round trips run on"],
             "runs": [{"kind": "sqlite", "n": {"quick": 400, "thorough": 20000}, "oracle_props": ["C17"]}]},
+    "C16": {"uses_genconsts": True,
+            "runs": [bind_run(proj_bind_c03, ["C16"], nq=3000), {"kind": "determ", "n": {"quick": 600, "thorough": 20000}, "oracle_props": ["C16"]}]},
+    "C18": {"uses_genconsts": True,
+            "runs": [{"kind": "parse", "mode": "c01", "n": {"quick": 6000, "thorough": 500000}, "project": proj_parse_total,
+                      "exhaustive": {"quick": 3, "thorough": 5}, "oracle_props": ["C18"], "rule": PARSE_RULE},
+                     bind_run(proj_bind_c18, ["C18"], nq=4000),
+                     {"kind": "scan", "n": {"quick": 3000, "thorough": 100000}, "oracle_props": ["C18"], "project": proj_scan_c18},
+                     iter_run_spec(proj_iter_c18, ["C18"], nq=2000)]},
     "C12": {"runs": [tx_run_spec(["C12"])]},
     "C09": {"runs": [cache_run_spec(proj_cache_events, ["C09"]), tx_run_spec(["C09", "C12"], compare=False, nq=200)]},
     "C10": {"runs": [cache_run_spec(proj_cache_full, ["C10"])]},
